@@ -37,7 +37,7 @@ def run(ctx):
 
     roots = ctx.path("roots.ndjson")
     roots2 = ctx.path("roots2.ndjson")
-    g1, s1 = mc.gen_replay(ctx, "gen_c02_quick.cfg" if q else "gen_c02_thorough.cfg", "c02", dbevery=4 if q else 1, roots=roots)
+    g1, s1 = mc.gen_replay(ctx, "gen_c02_quick.cfg" if q else "gen_c02_thorough.cfg", "c02", dbevery=4 if q else 8, roots=roots)
     g2, s2 = mc.gen_replay(ctx, "sim_c02.cfg", "c02", sim=(40, 30) if q else (600, 40), roots=roots2)
 
     nviol = 0
